@@ -135,7 +135,8 @@ def gen_key(rng, m):
 
 
 def gen_attrs(rng):
-    return [rng.choice([None, 'A', 'B', 'CA', 'N']), rng.choice([None, 1, 2, 5, 9]), rng.choice([None, 1, 2, 3, 7])]
+    # 0 and negative residue numbers / charge groups are legal and falsy values must not be taken for "absent"
+    return [rng.choice([None, 'A', 'B', 'CA', 'N', '']), rng.choice([None, 1, 2, 5, 9, 0, -1]), rng.choice([None, 1, 2, 3, 7, 0, -2])]
 
 
 def gen_op(rng, pool):
